@@ -333,15 +333,23 @@ func ruleR04a(c *Check) {
 	// function writes F while holding <base>.M — and every access to an inferred field is then checked.
 	// guardTable lists the pairs confirmed by reading the code (struct comments); it fixes the minimum the
 	// inference must find, per struct type so that renaming a guarded field or its mutex does not lose the rule.
+	// The minimum is counted per package: a guarded field may move, together with its mutex, into a struct of
+	// its own (a registry type with methods) without any guard being lost.
+	pkgOf := func(t string) string {
+		if i := strings.LastIndex(t, "."); i >= 0 {
+			return t[:i]
+		}
+		return t
+	}
 	inferred := inferGuards(c, ls)
 	found := map[string]int{}
 	for _, g := range inferred {
-		found[g.T]++
+		found[pkgOf(g.T)]++
 		checkGuard(g)
 	}
 	want := map[string]int{}
 	for _, g := range guardTable {
-		want[g.T]++
+		want[pkgOf(g.T)]++
 	}
 	var wk []string
 	for k := range want {
@@ -350,7 +358,7 @@ func ruleR04a(c *Check) {
 	sort.Strings(wk)
 	for _, k := range wk {
 		if found[k] < want[k] {
-			c.Unknown("R04a", "guarded-fields/"+k, fmt.Sprintf("anchor-unresolved: %d field(s) of this struct are written under one of its mutexes, %d were confirmed by hand: a guarded field lost its guard (or the struct changed beyond recognition)", found[k], want[k]), "-")
+			c.Unknown("R04a", "guarded-fields/"+k, fmt.Sprintf("anchor-unresolved: %d field(s) of this package's structs are written under a mutex of their struct, %d were confirmed by hand: a guarded field lost its guard (or the structs changed beyond recognition)", found[k], want[k]), "-")
 		}
 	}
 	// the loader's shared package map (locals of the function that spawns the loader goroutines)
